@@ -23,7 +23,7 @@ EXPLANATION = (
     'ability-decoder instances re-evaluated).'
 )
 ASSUMPTIONS = ["the socket delivers frames to _message_received one at a time (C07/C13)", "match statement first-match semantics"]
-FLOORS = {"C09.R1": 30, "C09.R2": 20, "C09.R3": 6, "C09.R4": 8, "C09.R5": 10, "C09.R6": 1}
+FLOORS = {"C09.R1": 30, "C09.R2": 20, "C09.R3": 6, "C09.R4": 8, "C09.R5": 10, "C09.R6": 1, "C09.R7": 1}
 
 GEN = {
     AT4_API: dict(cls="AirTouch4", names_req="GroupNamesRequest", names_msg="GroupNamesMessage", zstat_req="GroupStatusRequest", zstat_msg="GroupStatusMessage", c0_wrap=None, zone_cls="At4Zone", ac_cls="At4AirConditioner", hdr="pyairtouch.at4.comms.hdr"),
@@ -53,10 +53,11 @@ def run(ctx):
             r3(ctx, modname, cases, mr)
         r4(ctx, modname)
         r5(ctx, modname)
-    from . import c05
+    from . import c05, c17
     from .common import reuse
 
     reuse(ctx, "C09.R6", [c05.r1_ability], "the ability records the model is built from are decoded as the vendor defines (group bitmap, start/count fields)")
+    reuse(ctx, "C09.R7", [c17.r1], "unknown frame types interleaved with the handshake are consumed whole and skipped (an unconsumed rest is a decode error that resets the connection mid-handshake)")
 
 
 def _pattern_classes(ctx, m, p):
